@@ -41,6 +41,7 @@ var (
 	goOnce  sync.Once
 	goBin   string
 	goCache string
+	goWork  string // parent of the per-case module directories of this process
 	goEnv   []string
 	goT0    time.Time
 	goErr   error
@@ -56,14 +57,20 @@ func goSetup() error {
 				goBin = p
 			}
 		}
-		// caches left behind by killed processes
-		if old, _ := filepath.Glob(filepath.Join(os.TempDir(), "c14-gocache-*")); len(old) > 0 {
+		// directories left behind by killed processes
+		for _, pat := range []string{"c14-gocache-", "c14-work-"} {
+			old, _ := filepath.Glob(filepath.Join(os.TempDir(), pat+"*"))
 			for _, d := range old {
-				pid := strings.TrimPrefix(filepath.Base(d), "c14-gocache-")
+				pid := strings.TrimPrefix(filepath.Base(d), pat)
 				if _, err := os.Stat("/proc/" + pid); err != nil {
 					_ = os.RemoveAll(d)
 				}
 			}
+		}
+		goWork = filepath.Join(os.TempDir(), fmt.Sprintf("c14-work-%d", os.Getpid()))
+		if err := os.MkdirAll(goWork, 0o755); err != nil {
+			goErr = err
+			return
 		}
 		goCache = filepath.Join(os.TempDir(), fmt.Sprintf("c14-gocache-%d", os.Getpid()))
 		_ = os.RemoveAll(goCache)
@@ -84,7 +91,7 @@ func goSetup() error {
 			goEnv = append(goEnv, "GOTOOLCHAIN=local")
 		}
 		// warm-up: compiles the runtime once into the private cache
-		dir, err := os.MkdirTemp("", "c14warm")
+		dir, err := os.MkdirTemp(goWork, "warm")
 		if err != nil {
 			goErr = err
 			return
@@ -109,6 +116,9 @@ func goSetup() error {
 func goCleanup() {
 	if goCache != "" {
 		_ = os.RemoveAll(goCache)
+	}
+	if goWork != "" {
+		_ = os.RemoveAll(goWork)
 	}
 }
 
@@ -812,7 +822,10 @@ func checkCase(c Case, o *vt.Obs) error {
 	if len(c.Progs) == 0 {
 		return nil
 	}
-	dir, err := os.MkdirTemp("", "c14")
+	if err := goSetup(); err != nil {
+		return fmt.Errorf("%w: go toolchain set-up: %v", errHarness, err)
+	}
+	dir, err := os.MkdirTemp(goWork, "c14")
 	if err != nil {
 		return fmt.Errorf("%w: %v", errHarness, err)
 	}
@@ -849,11 +862,11 @@ func checkCase(c Case, o *vt.Obs) error {
 	}()
 
 	type progRes struct {
-		rejected string
-		crash    string
-		abiErr   error
+		rejected   string
+		crash      string
+		abiErr     error
 		exclUnused bool
-		res      []vmResult
+		res        []vmResult
 	}
 	prs := make([]progRes, len(c.Progs))
 	for i := range c.Progs {
